@@ -13,7 +13,10 @@ pub const CLAIMED: &[&str] = &["C02", "C03", "C06", "C07", "C08"];
 pub fn make_header(prop: &str, build_profile: &str, verif_seed: u64, run_index: u64) -> Header {
     let run_seed = derive(derive(verif_seed, prop, 0), build_profile, run_index);
     let mut r = Rng::sub(run_seed, "header", 0);
-    let dim = if prop == "C07" {
+    let dim = if prop == "C16" {
+        // the wrapping mode is specified for D = 2 and 3 (periodic image-point mode: D = 2)
+        [2usize, 3][r.weighted(&[60, 40])]
+    } else if prop == "C07" {
         // flips with 2 <= k < D exist only for D >= 4: give those dimensions more of the budget
         [2usize, 3, 4, 5][r.weighted(&[26, 30, 28, 16])]
     } else {
@@ -177,6 +180,25 @@ pub fn profile_for(prop: &str, thorough: bool) -> Profile {
         "C14" => {
             p.families = &["dyadic", "dyadic", "grid", "jitter", "cosph"];
         }
+        "C16" => {
+            p.toroidal = true;
+            p.always_construct = true;
+            p.families = &["torus"];
+            p.class_a_permille = 250;
+            p.knob_permille = 200;
+            p.ctor_fault_permille = 250;
+            p.multi = true;
+            p.max_len = if thorough { 20 } else { 12 };
+            p.tune = Some(|w, _r, _d| {
+                w.insert = 40;
+                w.insert_stats = 25;
+                w.remove = 8;
+                w.k1_insert = 0;
+                w.repair = 4;
+                w.repair_adv = 3;
+                w.policy = 6;
+            });
+        }
         "C15" => {
             p.class_a_permille = 150;
             p.knob_permille = 150;
@@ -217,6 +239,11 @@ fn run_generic<K: SimKernel<D>, const D: usize>(header: &Header, replay: Option<
                 c07: header.property == "C07",
                 c08: header.property == "C08",
             };
+            let mut ms: Vec<&mut dyn Monitor<K, D>> = vec![&mut m];
+            history::run::<K, D>(header, &profile, replay, &mut ms)
+        }
+        "C16" => {
+            let mut m = monitors::c16::C16::default();
             let mut ms: Vec<&mut dyn Monitor<K, D>> = vec![&mut m];
             history::run::<K, D>(header, &profile, replay, &mut ms)
         }
